@@ -6,7 +6,7 @@ cd /repo || exit 9
 git diff --quiet || { echo "repo dirty"; exit 9; }
 git apply "$P" || { echo "patch does not apply"; exit 9; }
 cd /verif
-./check "$C" --tier "$T" > /tmp/tryseed.$$.log 2>&1
+VERIF_OUT=/tmp/tryseed-out ./check "$C" --tier "$T" > /tmp/tryseed.$$.log 2>&1
 rc=$?
 grep -E "signature:|VIOLATION|held on|INCONCLUSIVE|HARNESS|KNOWN" /tmp/tryseed.$$.log | cut -c1-220 | head -12
 echo "exit=$rc"
